@@ -6,6 +6,16 @@ ALL = [f"C{i:02d}" for i in range(1, 21)]
 
 MC = "model_checking"
 CHECKS = {
+ "C01": dict(
+   text="For every rule of rules.json (generated into the spec at check time) TLC builds the product automaton of the strict and lenient reading of the children section by Brzozowski derivatives (MC_Dfa) and cross-checks it against an independent declarative membership definition on every word up to a per-rule budget (MC_Words; ~1e6 words in thorough). From TLC's graph the harness derives a W-method suite (complete for validators with up to k extra states; k=0/1 quick, 1/2 thorough), all short words and accepted random walks; every word is a path in TLC's graph whose end state carries the verdict and is run through validate.node in both modes: ACCEPT => no error; REJECT => only child-not-allowed/min/max errors; UNSPEC not judged.",
+   note="Trusted: TLC, the JSON->TLA+ generator (verbatim encoding), realisation of a word as a parent with valid content/attributes. FOREIGN stands for all names outside the rule. W-method completeness is relative to k.",
+   technique="TLA+ regex semantics (Regex.tla, RuleJson.tla) explored by TLC into per-rule automata; W-method conformance suite from TLC's graph replayed through validate.node",
+   design="4/C01"),
+ "C02": dict(
+   text="TLC evaluates the decision table of ContentClass.tla (12 content kinds + enumeration, three-valued) for every rule x ~50 abstract content classes (numeric classes split into boundary buckets at +-180, +-90, 0) x hasKids x enum dimension; every combination is concretised by constructive generators (12 strings per combination quick, 400 thorough; boundary values exact) and validated in both modes: ACCEPT/REJECT must match, both modes agree, nothing but rule errors, collecting mode never raises.",
+   note="Which strings belong to a class is decided by the generators, not by the spec (DESIGN section 5). Lenient spellings, blank text, NaN/inf for unranged float, lone surrogates are UNSPEC.",
+   technique="TLA+ decision table (ContentClass.tla) enumerated by TLC (MC_Content); each table row concretised and replayed through validate.node",
+   design="4/C02"),
  "C09": dict(
    text="TLC explores every forest over 4 nodes x 2 names with every edit (append, insert at every index, remove, clear, replace, both shift modes and directions, and the failing variants) and checks the spec's own invariants/action properties; the harness replays every labelled transition, every state's full query table, all paths to depth 3/4 and seeded walks on real Node objects, and TraceForest.tla judges long random histories over 12-20 nodes recorded from the real API. Exhaustive within the bound; beyond it, sampled.",
    note="Trusted: TLC, the projection pi (public properties only), Python list semantics for building states. Assumes the usage constraint of the statement (one parent at a time, no cycles, in-range insert index). Stored parent links of unlisted nodes are not judged.",
@@ -26,6 +36,11 @@ CHECKS = {
    note="Trusted: TLC, pi. Preconditions of the statement are enabling conditions of the spec (no id reuse, delete only registered ids).",
    technique="TLA+ action property checked by TLC (MC_Reg); transitions replayed after genuine histories; TraceForest.tla judges prune/expand/import events",
    design="4/C14"),
+ "C17": dict(
+   text="MC_Insert: for every rule x every existing child sequence over the rule's names up to a budget x every candidate, TLC computes the set Acceptable of indexes the statement allows (in bounds, keeps declared order, restores validity when some position does) and checks the bounded theorem RankIndex in Acceptable for the transcribed documented algorithm on the real table. The code's child_insert_index must answer inside TLC's set (ChildNotAllowedError exactly for foreign names); is_allowed_child is compared with 'occurs in some valid sequence'; long accepted sequences with one child removed are judged by TLC (TraceInsert.tla).",
+   note="Precondition: each rule names a child at most once (others skipped and listed). Membership via the derivative automaton, cross-checked against the declarative definition in C01's MC_Words.",
+   technique="TLA+ Acceptable/RankIndex model-checked by TLC on the real rule table; TLC's acceptable sets replayed against the code; trace validation for long sequences",
+   design="4/C17"),
  "C18": dict(
    text="TreeEq (name, content, tail, prefix, namespace map, attributes, extras, children recursively in order) is evaluated by TLC on every ordered pair of distinct nodes in every state of MC_Copy (templates, copies, and every single/double edit anywhere - i.e. pairs differing in exactly one field of one node at any depth and child position, plus unrelated subtrees); Node.is_equal is compared on all those pairs in both argument orders.",
    note="Trusted: TLC, pi. Identical-object calls are not made.",
